@@ -56,6 +56,19 @@ fn main() {
             let to: u64 = args[6].parse().unwrap_or(0);
             capi::exit_now(framework::explore_child(p.as_ref(), tier, seed, from, to));
         }
+        "concurrent-smoke" => {
+            // concurrent-smoke <seed> [threads] [per_thread]   (run under Miri: E4)
+            let seed: u64 = args.get(2).and_then(|s| s.parse().ok()).unwrap_or(1);
+            let t: usize = args.get(3).and_then(|s| s.parse().ok()).unwrap_or(3);
+            let k: usize = args.get(4).and_then(|s| s.parse().ok()).unwrap_or(2);
+            match props::c18::concurrent_smoke(seed, t, k) {
+                Ok(()) => println!("concurrent-smoke seed={seed}: ok"),
+                Err(e) => {
+                    println!("VIOLATION property=C18 replay=- clause=C18.same_as_solo detail={e}");
+                    std::process::exit(1);
+                }
+            }
+        }
         "scenario-digest" => {
             let s = std::fs::read_to_string(&args[2]).expect("read");
             let sc: scenario::Scenario = serde_json::from_str(&s).expect("scenario json");
